@@ -334,6 +334,7 @@ class PeerConnection:
         self._read_thread = StoppableThread(target=self.work_read_queue)
         self._write_buffer: bytes = b""
         self._write_msg_queue: queue.Queue = queue.Queue()
+        self._write_msg_pending: int = 0
         self._write_thread = StoppableThread(target=self.work_write_queue)
 
         self.logger: logging.LoggerAdapter = PeerLogAdapter(
@@ -478,7 +479,15 @@ class PeerConnection:
                 are processed in the order that they were added.
 
         """
+        with self.write_lock:
+            self._write_msg_pending += 1
         self._write_msg_queue.put(out_msg)
+
+    @property
+    def has_queued_messages(self) -> bool:
+        """Indicates that messages added with `add_out_msg` have not been
+        written to the write buffer yet."""
+        return self._write_msg_pending > 0
 
     def close(self, signal_node: bool = True):
         """Close the peer connection.
@@ -615,14 +624,21 @@ class PeerConnection:
             except queue.Empty:
                 continue
 
+            written = False
             try:
                 with self.write_lock:
                     self._write_buffer += new_msg.as_bytes()
+                    self._write_msg_pending -= 1
+                    written = True
                 self.demand_attention()
 
                 self.msg_dump.sent(new_msg)
                 self.logger.debug(f"sent diameter message {new_msg}")
             except Exception as e:
+                if not written:
+                    with self.write_lock:
+                        self._write_msg_pending -= 1
+                    self.demand_attention()
                 self.logger.warning(
                     f"failed to encode a queued diameter message as bytes: "
                     f"{e}; message discarded")
